@@ -247,7 +247,8 @@ def run(rep, tier, seed, replay=None, proof_ok=True):
                     cut = r.randrange(len(fl) + 1)
                     fl = fl[:cut // 2] + [['ns', 'n%d_%d' % (k, lvl), fl[cut // 2:cut]]] + fl[cut:]
                 gen_modules.append(fl)
-            theorem_domain(rep, model, gen_modules)
+            # the single model process answers one query per declaration: 1200 modules keep the thorough tier within minutes
+            theorem_domain(rep, model, gen_modules[:1200])
         # recorded defects: still present?
         for fid, text, pred, what in WITNESSES:
             i = pc.impl_parse(text)
